@@ -40,6 +40,7 @@ type Config struct {
 	Stubs       map[string]string // function full name -> harness function full name
 	NoPanicViol bool
 	Params      map[string]int
+	Profile     string
 	Deadline    time.Time
 }
 
@@ -683,12 +684,12 @@ func (in *Interp) callSSA(caller *frame, fn *ssa.Function, args []value, env []v
 		in.res.StubsHit[name+" => "+stub]++
 		return in.callSSA(caller, sf, args, nil)
 	}
-	if f, ok := intrinsics[name]; ok {
+	if f, ok := in.lookupIntrinsic(name); ok {
 		in.res.StubsHit[name]++
 		return f(in, caller, fn, args)
 	}
 	if fn.Origin() != nil {
-		if f, ok := intrinsics[fn.Origin().String()]; ok {
+		if f, ok := in.lookupIntrinsic(fn.Origin().String()); ok {
 			in.res.StubsHit[fn.Origin().String()]++
 			return f(in, caller, fn, args)
 		}
